@@ -31,6 +31,8 @@ type gen struct {
 	outOfRange int
 	// secondOffsets counts times generated in a zone whose offset has a seconds part.
 	secondOffsets int
+	// subSecondDurations counts durations generated with a sub-second part.
+	subSecondDurations int
 }
 
 var strFragments = []string{
@@ -251,8 +253,16 @@ func (g *gen) bytes() []byte {
 
 func (g *gen) dur() time.Duration {
 	r := g.r
-	return []time.Duration{0, 0, time.Second, 90 * time.Second, time.Hour, 86400 * time.Second, 500 * time.Millisecond,
-		1500 * time.Millisecond, 100 * time.Millisecond, -time.Second, 9223372036 * time.Second, time.Duration(r.Intn(1000000)) * time.Second}[r.Intn(12)]
+	ds := []time.Duration{0, 0, time.Second, 90 * time.Second, time.Hour, 86400 * time.Second,
+		// sub-second parts and rounding boundaries
+		490 * time.Millisecond, 500 * time.Millisecond, 501 * time.Millisecond, 999 * time.Millisecond, 1499 * time.Millisecond, 1500 * time.Millisecond,
+		1501 * time.Millisecond, 2750 * time.Millisecond, 59*time.Second + 999999999, 100 * time.Millisecond, time.Nanosecond,
+		-time.Second, -time.Nanosecond, 9223372036 * time.Second, time.Duration(r.Intn(1000000)) * time.Second, time.Duration(r.Int63n(int64(time.Hour)))}
+	d := ds[r.Intn(len(ds))]
+	if d%time.Second != 0 {
+		g.subSecondDurations++
+	}
+	return d
 }
 
 var urlPool = []string{
